@@ -135,6 +135,10 @@ type world struct {
 
 	db *recDB
 	st *stack.Stack
+
+	// Only for the "syncrace" world.
+	realDB  *profiledb.Default
+	storage *scriptStorage
 }
 
 func (w *world) server(group, name string) *srvSpec { return w.byName[group+"/"+name] }
@@ -274,6 +278,7 @@ func buildWorld(r *vkit.Run, dbKind string, round int, tweak ...func(*stack.Opti
 	addProf("pdet", false, false)
 	addProf("pauto", false, true)
 	addProf("pautodel", true, true)
+	addProf("pautodet", false, true)
 
 	const pwChars = "abcdefghijklmnopqrstuvwxyzABCDEFGHIJKLMNOPQRSTUVWXYZ0123456789:@/ %"
 	n := 0
@@ -336,6 +341,7 @@ func buildWorld(r *vkit.Run, dbKind string, round int, tweak ...func(*stack.Opti
 	newDev("pauto", akDoHOnly, stLive, "hdoh", "kids-tab")
 	newDev("pauto", akOn, stLive, "hon", "tv2")
 	newDev("pautodel", akOff, stDeleted, "hdel", "old-tv")
+	newDev("pautodet", akOn, stDetached, "hdet", "old-pad")
 	_ = keeper
 	if n > 28 {
 		return nil, fmt.Errorf("too many devices for the dedicated ranges: %d", n)
@@ -357,7 +363,7 @@ func buildWorld(r *vkit.Run, dbKind string, round int, tweak ...func(*stack.Opti
 			db.Add(p, byProf[id]...)
 		}
 		w.db = &recDB{inner: db, w: w}
-	case "real":
+	case "real", "syncrace":
 		stg := &scriptStorage{w: w}
 		full := &profiledb.StorageProfilesResponse{SyncTime: time.Unix(1_700_000_000, 0)}
 		for id, p := range profs {
@@ -373,7 +379,11 @@ func buildWorld(r *vkit.Run, dbKind string, round int, tweak ...func(*stack.Opti
 		part := &profiledb.StorageProfilesResponse{SyncTime: time.Unix(1_700_000_600, 0)}
 		for id, p := range profs {
 			ps := w.Profs[id]
-			if !ps.Deleted && id != "pdet" {
+			detaches := false
+			for _, d := range w.Devs {
+				detaches = detaches || (d.Prof == id && d.State == stDetached)
+			}
+			if !ps.Deleted && !detaches {
 				continue
 			}
 			up := cloneProfile(p)
@@ -381,7 +391,7 @@ func buildWorld(r *vkit.Run, dbKind string, round int, tweak ...func(*stack.Opti
 			for _, d := range w.Devs {
 				if d.Prof == id && d.State != stDetached {
 					up.DeviceIDs = append(up.DeviceIDs, d.ID)
-					if id == "pdet" {
+					if detaches {
 						part.Devices = append(part.Devices, d.dev)
 					}
 				}
@@ -396,13 +406,20 @@ func buildWorld(r *vkit.Run, dbKind string, round int, tweak ...func(*stack.Opti
 		if err != nil {
 			return nil, err
 		}
-		for i := 0; i < 2; i++ {
+		syncs := 2
+		if dbKind == "syncrace" {
+			// The partial sync is delivered later, while automatic-device
+			// creations are in flight (see syncDuringCreate).
+			syncs = 1
+			w.realDB, w.storage = db, stg
+		}
+		for i := 0; i < syncs; i++ {
 			if err = db.Refresh(context.Background()); err != nil {
 				return nil, fmt.Errorf("refresh %d: %w", i, err)
 			}
 		}
-		if stg.calls != 2 {
-			return nil, fmt.Errorf("storage was asked %d times, want 2 (full + partial)", stg.calls)
+		if stg.calls != syncs {
+			return nil, fmt.Errorf("storage was asked %d times, want %d", stg.calls, syncs)
 		}
 		w.db = &recDB{inner: db, w: w}
 	case "restored":
@@ -559,6 +576,9 @@ type scriptStorage struct {
 	resps []*profiledb.StorageProfilesResponse
 	calls int
 	auto  map[string]*agd.Device
+	// onCreate, if set, is called at the start of every CreateAutoDevice and
+	// may block.
+	onCreate func(req *profiledb.StorageCreateAutoDeviceRequest)
 }
 
 func (s *scriptStorage) Profiles(_ context.Context, _ *profiledb.StorageProfilesRequest) (*profiledb.StorageProfilesResponse, error) {
@@ -573,6 +593,13 @@ func (s *scriptStorage) Profiles(_ context.Context, _ *profiledb.StorageProfiles
 }
 
 func (s *scriptStorage) CreateAutoDevice(_ context.Context, req *profiledb.StorageCreateAutoDeviceRequest) (*profiledb.StorageCreateAutoDeviceResponse, error) {
+	s.mu.Lock()
+	hook := s.onCreate
+	s.mu.Unlock()
+	if hook != nil {
+		// A slow backend call; no lock of the storage is held meanwhile.
+		hook(req)
+	}
 	s.mu.Lock()
 	defer s.mu.Unlock()
 	if s.auto == nil {
